@@ -2078,6 +2078,8 @@ func checkIndexClearComplete(c *Ctx) {
 			}
 		}
 		c.Check(ok && okRet, "R14.7", "bleveIndex.Clear:whole-index", pos, "close → remove the index directory → new index, each on success of the previous", "Clear does not remove the index directory (b.path) between closing the index and creating the new one, or reports success before the new index exists")
+	case closeC != nil && mk != nil && rm == nil && search == nil:
+		c.Check(false, "R14.7", "bleveIndex.Clear:whole-index", pos, "", "Clear closes the index and opens it again without removing its directory in between: every document is still there, so removed entities stay searchable after wipe and survive a rebuild")
 	case search != nil:
 		sized := false
 		for _, b := range fn.Blocks {
